@@ -1,9 +1,11 @@
 from propcommon import COMMON_MODELLED
 PROP = dict(
     gotest="TestC10",
+    translator="arithC10",
+    extra_props=["ArithTieC10"],
     model="coq/Models/CloseGuard.v (decision layer of x/leveragelp and x/perpetual as coded: liquidation / stop-loss / take-profit guards with their exact comparison "
           "operators and nil handling, per-item loops of both MsgClosePositions handlers, the leveragelp begin-block sweep, open health comparison, sender-keyed user close)",
-    coq_deps=["Base/Res.v", "Models/CloseGuard.v", "Proofs/CloseGuardProofs.v", "Run/CloseGuardRun.v", "Props/C10.v"],
+    coq_deps=["Base/Res.v", "Models/CloseGuard.v", "Proofs/CloseGuardProofs.v", "Run/CloseGuardRun.v", "Props/C10.v", "Base/Zdec.v", "Base/ZdecChk.v", "Generated/ArithC10.v", "Proofs/ArithTieTac.v", "Proofs/ArithTieC10.v", "Props/ArithTieC10.v"],
     rule="histories of 26-41 ops on a fresh real app each (oracle pool uusdc/uatom with leveragelp + perpetual enabled, funded vault): leveraged-LP and perpetual opens "
          "(leverage 1.2-10, long/short, uusdc/uatom collateral, stop-loss unset / far / one ulp from the price / already reached), consolidating re-opens, user closes by the "
          "owner and by others naming the owner's id, trigger updates by owner and non-owner, MsgClosePositions of both modules from arbitrary senders with 1-4 items (healthy, "
@@ -13,7 +15,11 @@ PROP = dict(
          "one ulp either side. Before every close-positions tx and every block the items are walked on a throw-away context: health recomputed at the moment of each item "
          "(GetPositionHealth; GetMTPHealth after settling interest and funding), guard evaluated by the harness, state advanced by that one item; after the real step all "
          "positions and owner balances are diffed. distinct = distinct (op,result) sequence; non-trivial = at least one forced close, successful open or user close",
-    trusted_base=["health values, lp / oracle prices, settled interest and funding amounts and pay-outs are read from the implementation (recomputed on throw-away contexts "
+    trusted_base=["tools/gotrans arith (Go AST + go/types -> Gallina): the method table of coq/Generated/ARITH_README.md; ties the comparisons of CheckAndLiquidateUnhealthyPosition / "
+                  "CheckAndCloseAtStopLoss / CheckAndCloseAtTakeProfit (both modules, by position side) and of the open-time health checks to the guard functions of Models/CloseGuard.v; "
+                  "what GetPositionHealth / GetMTPHealth / GetSafetyFactor / GetAssetPrice / LpTokenPrice return, that a pointer passed as an argument (SetMTP, hooks) is not written "
+                  "through between `mtp.MtpHealth = h` and the test, and the order of the steps around the guards, are covered by the correspondence run only",
+                  "health values, lp / oracle prices, settled interest and funding amounts and pay-outs are read from the implementation (recomputed on throw-away contexts "
                   "with the keepers' own GetPositionHealth / GetMTPHealth / LpTokenPrice / settlement functions): the link health value <-> economic value is taken as given, "
                   "except for leveraged-LP health, which is ALSO recomputed from first principles (amm ExitPoolEst of the shares committed at the position address in uusdc over "
                   "Borrowed + InterestStacked - InterestPaid of the stablestake debt record); the two must agree (C10:lev-health-differs-from-exit-value-over-debt) and the verdict uses the recomputed value",
